@@ -90,7 +90,7 @@ func replay(r *ev.Run, rf ev.ReplayFile) {
 		var c wcase
 		ev.MustJSON(rf.Case, &c)
 		res := runWrite(&c)
-		report(res.msg, res.sig, res.outcome, c)
+		report(res.msg, res.sig, res.outcome.String(), c)
 	case "bs-read":
 		var c rcase
 		ev.MustJSON(rf.Case, &c)
